@@ -229,8 +229,44 @@ def inline(ctx, f: FuncInfo, want: Callable[[FuncInfo], bool] | None = None) -> 
                     return None
             if form == "assign" and not tail_mode and (final_ret is None or final_ret.value is None):
                 return None
-        # name hygiene: helper locals / parameters must not capture different caller variables
+        # name hygiene: helper locals / parameters must not capture different caller variables.  On a clash the
+        # helper's body is copied with the clashing names renamed (positions are kept, so typed facts still apply;
+        # the copies get their own parent links)
         h_locals = _names_bound(h.node) - set(h.params)
+        tgt_names0 = set() if tgt is None or not isinstance(tgt, (ast.Name, ast.Tuple)) else {tgt.id} if isinstance(tgt, ast.Name) else {x.id for x in tgt.elts if isinstance(x, ast.Name)}
+        clash = {p for p, a in amap.items() if not (isinstance(a, ast.Name) and a.id == p) and p in caller_names} | (h_locals & (caller_names - tgt_names0))
+        if clash:
+            ren = {n: f"__{h.name.strip('_')}_{n}" for n in clash}
+            if any(v in caller_names for v in ren.values()):
+                return None
+
+            class _Ren(ast.NodeTransformer):
+                def visit_Name(self, n):
+                    if n.id in ren:
+                        n.id = ren[n.id]
+                    return n
+
+                def visit_ExceptHandler(self, n):
+                    self.generic_visit(n)
+                    if n.name in ren:
+                        n.name = ren[n.name]
+                    return n
+
+                def visit_FunctionDef(self, n):
+                    return n
+
+                visit_AsyncFunctionDef = visit_FunctionDef
+                visit_Lambda = visit_FunctionDef
+
+            body = [_Ren().visit(copy.deepcopy(b)) for b in body]
+            for b in body:
+                for par in ast.walk(b):
+                    for ch in ast.iter_child_nodes(par):
+                        parents[ch] = par
+            amap = {ren.get(p, p): a for p, a in amap.items()}
+            rets = [n for s_ in body for n in ast.walk(s_) if isinstance(n, ast.Return)]
+            final_ret = body[-1] if body and isinstance(body[-1], ast.Return) else None
+            h_locals = {ren.get(n, n) for n in h_locals}
         pre: list[ast.stmt] = []
         for p, a in amap.items():
             if isinstance(a, ast.Name) and a.id == p:
